@@ -1053,7 +1053,7 @@ def run(ctx):
         "lark's LALR construction and symengine's expression parser are NOT modelled: tied by K only",
     ]
     ctx.assumptions += [
-        "decimal literals have at most 15 significant digits (str(float) round-trips them; model of float_to_rational)",
+        "decimal literals: float_to_rational = Rational(str(x)) is modelled as the exact positional value; checked on every run for lone literals of 16-22 significant digits (arbitrary-precision floats in symengine) and short ones",
         "the token model abstracts Polar's lexer: a sign glued to a NUM/ID atom is one ARITHM_ATOM token there, "
         "'- atom' here; generated texts keep unary minus glued to an atom",
         "user variable names do not start with '_' and are not e, pi, oo, I (hypothesis wf_names of DESIGN section 6)",
